@@ -12,6 +12,109 @@ NOTE = ("Trusted base: Lean 4.33 kernel (axioms propext, Classical.choice, Quot.
         "alv.py. ")
 
 CLAIMS = {
+ "C01": dict(
+   text="Statement: decode (assemble (render d)) = d for every instance d of the family, where decode is the Lean reference decoder AL.Spec.X86 "
+        "(written from the architecture's encoding rules, cross-validated against objdump on every run), render writes d in AssemblyLine's syntax and "
+        "the family (AL.Spec.X86Families.famC01) lists every integer entry of the reference opcode table over ALL register tuples x86-64 can encode "
+        "(8/16/32/64 bit, r8-r15, ah/ch/dh/bh without REX), every synonym mnemonic and the no-operand instructions. Theorems: Sweep.c01_sweep (the "
+        "whole family, about 51000 instances x option bytes {14,0}, on the model, decided by evaluation - native_decide), C01.nop_table_decodes "
+        "(kernel-checked: every entry n of the regenerated NOP table is one nop of n bytes), C01.no_operand_lines (kernel evaluation of the text-level "
+        "pipeline). Tie: the same family on the C implementation under option bytes {14,0} (thorough: all 12): implementation bytes = model bytes "
+        "(T2) and decode(bytes) = written instruction, length = offset advance.",
+   note="The finite register-tuple quantifier is discharged by evaluation, not by a kernel-checked term: c01_sweep depends on the per-theorem "
+        "native_decide axiom (Lean compiler/interpreter trusted) - kernel evaluation of the text-level model was measured at about 55 ms per line. "
+        "Equivalences accepted as 'the same operation': xchg is symmetric; xchg ax,ax / rax,rax may be the nop they are (not xchg eax,eax).",
+   technique="Lean 4 reference decoder + abstract syntax; exhaustive finite-domain theorem (native_decide) and kernel-checked table lemmas; exhaustive differential run of the family on the C code with decoding oracle",
+   design="8/C01"),
+ "C02": dict(
+   text="Statement: decode (assemble (render d)) = d up to an encoding of the SAME address (AL.Spec.X86.sameMem: same access width, address size, "
+        "per-register coefficient and sign-extended displacement for every register valuation) for every entry of the reference table with a "
+        "memory-capable operand over base (none, all 16, 32-bit) x index x scale x displacement (disp8/disp32 boundaries of both signs) x address size, "
+        "both factor orders, with and without size keyword. Theorems: Sweep.c02_sweep (about 108000 instances x NASM/STRICT SIB handling on the model, "
+        "by evaluation), C02.disp_field_reads_back + X86.leVal_assembleConst + toSigned_roundtrip (kernel-checked, for EVERY displacement value: the "
+        "bytes the model emits read back as the value and every signed disp8/disp32 is recovered), C11.swap_same_address / nobase_scale*_same_address "
+        "(the NASM rewritings keep the address for every register valuation). Tie: the family on the C implementation (thorough: all 17x16x4x13x2 "
+        "shapes for mov, lea, paddb, vaddpd), decoded and compared; objdump cross-check of the decoder on every encoding.",
+   note="Sweep by evaluation (native_decide axiom), see C01. RIP-relative operands are not in the documented syntax and not in the family.",
+   technique="Lean 4 reference decoder with address-equivalence relation; finite-domain theorem (native_decide) + kernel-checked field lemmas for all values; differential run with decoding oracle",
+   design="8/C02"),
+ "C03": dict(
+   text="Statement: decode (assemble (render d)) = d for every entry with an immediate (register and memory destinations) over the boundary values of "
+        "its operand size, in hexadecimal, decimal, negated and zero-padded spellings: the immediate field has the width the opcode defines and its "
+        "value after the architecture's sign/zero extension is the written value. Theorems: Sweep.c03_sweep (quick family x the three mov-immediate "
+        "modes, model, by evaluation), C03.written_number_value with Lemmas.strtoul_dec / strtoul_hex / strtoul_neg_* (kernel-checked, for EVERY "
+        "n < 2^64: decimal, hexadecimal with any number of leading zeros and negated spellings all convert to n resp. 2^64-n with nothing left over - "
+        "also the number-base part of C16), C03.imm_field_reads_back (every emitted constant reads back little-endian). Tie: the family on the C "
+        "implementation in modes STRICT/NASM/SMART, decoded and compared; asmline -r executes mov rax, v; ret for boundary v in every mode (C20).",
+   note="Sweep by evaluation (native_decide axiom). 'Representable' is read as encodable: for 64-bit non-mov destinations values outside the sign-"
+        "extended imm32 range are not in the family. mov r64, imm <= 0xffffffff may be emitted to the 32-bit register (C11 says in which mode).",
+   technique="Lean 4 reference decoder; inductive numeral lemmas for all values; finite-domain theorem (native_decide); differential run with decoding oracle and executed code",
+   design="8/C03"),
+ "C04": dict(
+   text="Statement: decode (assemble (render d)) = d for every MMX/SSE2/SSSE3/SSE4.1/AVX/AVX2/BMI2/ADX entry of the reference table over ALL register "
+        "tuples of its register files (mm0-7, xmm0-15, ymm0-15, 32/64-bit general registers) and its memory forms: mandatory prefix, opcode map, "
+        "VEX.L, W, vvvv and the inverted R/X/B bits are what a decoder needs to read the same operation, operands, operand size and vector length. "
+        "Theorems: Sweep.c04_sweep (about 330000 instances on the model, by evaluation), C04.vex2_is_vex3 (kernel-checked: the 2-byte and 3-byte VEX "
+        "forms carry the same fields for all 256 second bytes). Tie: the family on the C implementation, decoded and compared; objdump cross-check.",
+   note="Sweep by evaluation (native_decide axiom). Vector forms AssemblyLine does not offer (e.g. vaddpd xmm) are skipped, not judged.",
+   technique="Lean 4 reference decoder incl. VEX; exhaustive finite-domain theorem (native_decide); exhaustive differential run with decoding oracle",
+   design="8/C04"),
+ "C05": dict(
+   text="Statement: for jmp, every conditional jump, call, jrcxz, xbegin x {no keyword, short, long} x every d in -130..129 and the 16/32-bit "
+        "boundaries, decimal and hexadecimal, all synonym mnemonics: an accepted line decodes to that operation with displacement field d (rel8 or "
+        "rel32; long forces rel32, short rel8) and a line is rejected exactly when short is requested, or only rel8 exists, and d is outside "
+        "-128..127. Theorems: Sweep.c05_sweep (about 47000 instances x 2 option bytes, model, by evaluation), C05.rel_field_reads_back (kernel-"
+        "checked, EVERY d: a rel8/rel32 field holding d's two's complement reads back as d), C05.written_displacement (EVERY n: the written number "
+        "reaches the encoder unchanged). Register, memory and far-memory targets are instances of the C01/C02 families (call, jmp, callf, jmpf).",
+   note="Sweep by evaluation (native_decide axiom). 'short' on call/xbegin (no rel8 form exists) is not judged.",
+   technique="Lean 4 reference decoder; finite-domain theorem (native_decide) + two's-complement lemmas for all displacements; differential run with decoding oracle",
+   design="8/C05"),
+ "C17": dict(
+   text="Model AL.Impl.Faults takes the OS's answers as parameters (asm_create_instance, asm_read_file, the file entry points, "
+        "asm_create_bin_file); a refused growth is the `external` branch of check_len_or_resize. Theorems C17.create_reports, refused_growth_fails, "
+        "failed_call_keeps_code (whatever makes a call fail, the offset and every byte before it are unchanged, bookkeeping intact, nothing written "
+        "outside), readFile_fails / file_failure_reports / read_error_fails, bin_file_success_iff / bin_file_complete (success iff fopen ok, every "
+        "byte written, fclose ok - and then the file is code[0,offset)). Tie: --wrap fault-injection harness over the real library: EVERY single "
+        "failure of every malloc/mmap/mremap/munmap/open/fstat/read/close/fopen/fwrite/fclose call the library objects make in six scenarios, one "
+        "process per schedule (a crash is an outcome), observations checked against the property and against the model's prediction; T6: nm "
+        "inventory of the libc symbols the library objects reference (a new fallible call breaks the obligation).",
+   note="PARTIAL: the kernel's behaviour on a refused call is assumed; combinations of several faults are covered by the theorems, not injected; "
+        "memory leaks on failure paths are not part of the property.",
+   technique="Lean 4 model with OS answers as parameters + frame theorems; exhaustive single-fault injection (ld --wrap) with model correspondence; nm symbol inventory",
+   design="8/C17"),
+ "C18": dict(
+   text="Model: the only shared mutable objects are the two _Atomic index tables, every create stores each slot's final value, every lookup loads "
+        "one slot; a trace is ANY interleaving of the threads' atomic steps. Theorems C18.slot_invariant, stored_slot_stays, load_after_own_create "
+        "(a load that follows a store of the same slot by the same thread returns the final value, whatever other threads do in between), "
+        "snapshot_is_final, lookup_alone / format_lookup_alone (the table lookups return what they return single-threaded) - for every trace and "
+        "any number of threads. Tie: T5 (nm: the writable globals of the library objects are the audited ones, only the index tables are stored "
+        "to, they are _Atomic, no libc function with hidden static state is called); 2..64 threads looping create/options/assemble (plain, fitting, "
+        "counting)/destroy on private instances under ThreadSanitizer and at -O2, every thread's results equal the single-threaded reference.",
+   note="PARTIAL: the C11 memory model and libc's internal locking are assumed; absence of races on non-atomic objects is observed by TSan over "
+        "the schedules that occurred, not proved.",
+   technique="Lean 4 interleaving model with invariant proof by induction over traces + ThreadSanitizer harness + nm/source inventory of shared state",
+   design="8/C18"),
+ "C19": dict(
+   text="Theorems C19.readLoop_all / read_all (when the OS delivers the file in arbitrary positive pieces the copy is the whole content, cut at "
+        "its first NUL as a C string), file_equals_str / file_equals_str_text / file_counting_equals_str (asm_assemble_file and the counting "
+        "variant = the string entry points on that text: same return value, instance, buffer, count) for EVERY content - every size, empty, any "
+        "multiple of the page size (the file is read, not mapped: no page arithmetic) - missing_file_fails, C17.bin_file_complete. Tie: files of "
+        "every size 0..64 and within 40 bytes of 1, 2, 3 pages, with/without final newline, valid, rejected and generated programs, on a twin "
+        "instance with the string entry point; missing file, directory, missing directory; asm_create_bin_file at every offset; all on the model too.",
+   note="The file system is assumed to return what was written.",
+   technique="Lean 4 model of the read loop with OS answers as parameters, proof by induction over reads; twin-instance differential harness over file sizes",
+   design="8/C19"),
+ "C20": dict(
+   text="Model AL.Impl.Cli (tools/asmline.c from the parsed flag list on). Theorems C20.usage_error_exits, exit_zero_iff (exit status 0 iff no usage "
+        "error, the assembly succeeded and the requested binary output succeeded), option_calls / option_calls_spec (the option byte of the run is "
+        "the documented calls: -n/-t/-s as asm_set_all in command-line order, then the long flags as asm_mov_imm, asm_sib, "
+        "asm_sib_index_base_swap, asm_sib_no_base - through C12's refinement, AL.Spec.apply folded over them), getlines_join (the stdin pieces "
+        "concatenate to the input), file_mode_is_library. Tie: the asmline executable on programs x 24 mode-flag sequences x 15 output-flag sets x "
+        "{stdin, FILE}: exit status, -P/-o file bytes, -b count vs the model; -p hex parsed back and -r value checked directly.",
+   note="PARTIAL: getopt_long is assumed; what -p prints and the stdin/FILE equality on whole programs are checked on the executable (C06 "
+        "split_calls and C14 additivity are the two-call lemmas behind it), not proved end to end.",
+   technique="Lean 4 model of the command-line tool over the library model + refinement to the documented option table; differential run of the executable",
+   design="8/C20"),
  "C09": dict(
    text="Theorems AL.Properties.C09.no_ub_line (for EVERY byte string and option byte the per-line pipeline ends in code, skip or "
         "EXIT_FAILURE, never where the C code would dereference a NULL strtok_r result), emitOne_failOnly (no division by a zero chunk "
